@@ -107,6 +107,7 @@ def link_analysis(ctx, F, rule, sfx, prop='C12'):
         d = dtab.is_discr_eq(leaf)
         if d is not None and itat is not None and isinstance(d[0], nf.Atom) and d[0].id == itat.id:
             return ('const', (d[1] == 1) == d[2])      # inside the loop body the item is Some
+        fp = face_paths(F)
         for nm, fld, pol in (('RS', 'right', True), ('SN', 'shift', False)):
             x = dtab.is_some_leaf(leaf)
             dd = dtab.is_discr_eq(leaf)
@@ -114,7 +115,7 @@ def link_analysis(ctx, F, rule, sfx, prop='C12'):
             if cand is None:
                 continue
             r = resolve_item(cand, item, sh)
-            if r is not None and r[0] == ('elem', 'self.faces') and r[1] == ['inner', fld]:
+            if r is not None and r[0] == ('elem', 'self.faces') and r[1] == fp[fld]:
                 some = True if x is not None else ((dd[1] == 1) == dd[2])
                 return (nm, some == pol)
         return None
@@ -125,9 +126,10 @@ def link_analysis(ctx, F, rule, sfx, prop='C12'):
         if not isinstance(recv, I.Ref) or not recv.lv.path or recv.lv.path[-1][0] != 'i':
             raise AnalysisIncomplete('push target is not an indexed list: %s' % repr(e.fargs[0])[:80])
         r = resolve_item(recv.lv.path[-1][1], item, sh)
-        if r is not None and r[0] == ('elem', 'self.faces') and r[1] == ['inner', 'left']:
+        fp = face_paths(F)
+        if r is not None and r[0] == ('elem', 'self.faces') and r[1] == fp['left']:
             kind = 'left'
-        elif r is not None and r[0] == ('elem', 'self.faces') and r[1] == ['inner', 'right', 'Some', '0']:
+        elif r is not None and r[0] == ('elem', 'self.faces') and r[1] == fp['right'] + ['Some', '0']:
             kind = 'right'
         else:
             kind = 'other:' + repr(recv.lv.path[-1][1])[-50:]
@@ -230,7 +232,7 @@ def r2(ctx, F, rule, sfx):
     ch, s0 = stream_chain(I.frozen(rec1['init'][li]))
     nm = [n for n, _ in ch]
     ok_lists = (nm[:2] == ['collect', 'map'] and repr(s0).replace(' ', '') == 'Range{start:0,end:len(self.voronoi_cells)}') or \
-        (nm[:1] == ['from_elem'] and 'len(self.voronoi_cells)' in repr(I.frozen(rec1['init'][li])))
+        repr(I.frozen(rec1['init'][li])).replace(' ', '') == 'from_elem(array{},len(self.voronoi_cells))'
     ctx.check(rule, 'one-list-per-cell' + sfx, ok_lists, '%s over %r' % (' <- '.join(nm), s0), 'one (empty) list per cell: collect(map(0..len(cells), ..)) or vec![..; len(cells)]', w, key_extra='lists')
     # concatenation
     out = I.get_field(ret, 'cell_face_connections')
@@ -303,19 +305,20 @@ def r4(ctx, F, rule, sfx):
     ctx.evaluations += ip.evaluations
     w = where(c)
     face = 'vor.faces[fi]'
+    f_left, f_right, f_shift = (face + '.' + face_path_str(F, n) for n in ('left', 'right', 'shift'))
 
     def classify(leaf):
-        p = dtab.option_leaf(leaf, face + '.inner.shift')
+        p = dtab.option_leaf(leaf, f_shift)
         if p is not None:
             return ('PER', p)
-        p = dtab.option_leaf(leaf, face + '.inner.right')
+        p = dtab.option_leaf(leaf, f_right)
         if p is not None:
             return ('BND', not p)
         if leaf.op == 'cmp' and leaf.args[0] in ('==', '!='):
             s = {repr(leaf.args[1]), repr(leaf.args[2])}
-            if s == {face + '.inner.left', 'cell.idx'}:
+            if s == {f_left, 'cell.idx'}:
                 return ('LEFTSELF', leaf.args[0] == '==')
-            if s in ({face + '.inner.right.Some.0', 'cell.idx'}, {'unwrap(%s.inner.right)' % face, 'cell.idx'}):
+            if s in ({f_right + '.Some.0', 'cell.idx'}, {'unwrap(%s)' % f_right, 'cell.idx'}):
                 return ('RIGHTSELF', leaf.args[0] == '==')
         return None
 
@@ -332,7 +335,7 @@ def r4(ctx, F, rule, sfx):
         return True
     T = dtab.Table(['PER', 'BND', 'LEFTSELF', 'RIGHTSELF'], classify, constraint=feasible)
     tab = T.tabulate(v)
-    right_forms = ('unwrap(%s.inner.right)' % face, face + '.inner.right.Some.0')
+    right_forms = ('unwrap(%s)' % f_right, f_right + '.Some.0')
     for env_ in T.rows():
         row = tuple(env_[n] for n in T.names)
         got = tab[row]
@@ -344,7 +347,7 @@ def r4(ctx, F, rule, sfx):
             ok = isinstance(got, I.St) and got.variant == 'Some' and repr(got.fields[0]) in right_forms
             want = 'Some(right)'
         else:
-            ok = isinstance(got, I.St) and got.variant == 'Some' and repr(got.fields[0]) == face + '.inner.left'
+            ok = isinstance(got, I.St) and got.variant == 'Some' and repr(got.fields[0]) == f_left
             want = 'Some(left)'
         ctx.check(rule, 'neighbour[%s]%s' % (dtab.fmt_env(env_), sfx), ok, g[:100], want, w, key_extra='%s' % dtab.fmt_env(env_))
     # the closure is applied to every listed face index: filter_map over iter(face_indices)
